@@ -27,7 +27,7 @@ ASSUMPTIONS = ["fields between alphabet letters are not explored (the step is li
                "the Jacobian is compared on states where the space operator is differentiable (generic, tie-free data); at kinks a one-sided derivative is all a finite difference can give",
                "amplification factors are observed on Fourier modes through step(); the scalar propagator() helper raises AttributeError for implicit classes (its stand-in model has no 'islinear') and is not part of the statement"]
 EPS = np.finfo(float).eps
-LIN = 1e-6
+LIN = 2e-7
 CFLS = [0.01, 0.5, 1.0, 10.0, 100.0]
 
 
@@ -64,7 +64,7 @@ def exact_step_array(A, r0, Q, dtv, theta):
 
 def fields(n):
     out = [("zero", np.zeros(n)), ("ones", np.ones(n))]
-    for j in range(n):
+    for j in (range(n) if n <= 8 else (0, n // 3, n - 1)):      # size ladder: three impulses and the generic vectors below
         e = np.zeros(n)
         e[j] = 1.0
         out.append(("impulse%d" % j, e))
@@ -105,6 +105,10 @@ def check_linear(a, rname, mspec, bc, res=None):
             dt = cfl * dxmin / abs(a)
             for fname, Q0 in fields(n):
                 sc = np.abs(Q0).max() + (np.abs(r0).max() * dt if bc != "per" else 0.0)
+                # the library's Jacobian is a forward difference with perturbation sqrt(eps) x mean|q|: for a peaked field (one impulse among
+                # n cells: max/mean = n) its rounding error grows like max|q|/mean|q|; the allowance follows it beyond a ratio of 8
+                mq = np.abs(Q0).mean()
+                tau = LIN * max(1.0, (np.abs(Q0).max() / mq / 8.0) if mq > 0 else 1.0)
                 solver = cls(mesh, disc)
                 f = space.field.fdata(model, mesh, [Q0.copy()], t=0.25)
                 site = "C06/linear/%s" % iname
@@ -118,8 +122,8 @@ def check_linear(a, rname, mspec, bc, res=None):
                 err = np.abs(f.data[0] - want).max() / (sc + 1e-300) if sc > 0 else np.abs(f.data[0]).max()
                 if res is not None:
                     res.evals += 1
-                    res.worst("linear-step/tau", err / (LIN * (1 + cfl)))
-                if not err <= LIN * (1 + cfl):
+                    res.worst("linear-step/tau", err / (tau * (1 + cfl)))
+                if not err <= tau * (1 + cfl):
                     out.append((site + "/first-step", "%s a=%g %s mesh %r %s cfl %g field %s: step gives %r, the theta=%g system gives %r (relative error %.3g)" % (
                         iname, a, rname, mspec, bc, cfl, fname, f.data[0].tolist(), th, want.tolist(), err)))
                     continue
@@ -144,8 +148,8 @@ def check_linear(a, rname, mspec, bc, res=None):
                         err = np.abs(fa.data[0] - wa).max() / (sc + 1e-300) if sc > 0 else np.abs(fa.data[0]).max()
                         if res is not None:
                             res.evals += 1
-                            res.worst("linear-step-dt-array/tau", err / (LIN * (1 + cfl * dtv.max() / dtv.min())))
-                        if not err <= LIN * (1 + cfl * dtv.max() / dtv.min()):
+                            res.worst("linear-step-dt-array/tau", err / (tau * (1 + cfl * dtv.max() / dtv.min())))
+                        if not err <= tau * (1 + cfl * dtv.max() / dtv.min()):
                             out.append((site + "/dt-array-%s" % aname, "%s a=%g %s mesh %r %s cfl %g field %s: step with the per-cell dt array %r is off (D^-1 - theta A) dQ = A Q by %.3g" % (
                                 iname, a, rname, mspec, bc, cfl, fname, dtv.tolist(), err)))
                         elif not abs(fa.time - (0.25 + dtv.min())) <= 4 * EPS * (0.25 + dtv.min()):
@@ -156,7 +160,7 @@ def check_linear(a, rname, mspec, bc, res=None):
                                 sv.step(fa, dtv.copy())
                             w2 = Qn + np.linalg.solve(1.5 * np.diag(1.0 / dtv) - A, A @ Qn + r0 + 0.5 * (Qn - Qm) / dtv)
                             err = np.abs(fa.data[0] - w2).max() / (max(np.abs(Qn).max(), sc) + 1e-300)
-                            if not err <= LIN * (1 + cfl * dtv.max() / dtv.min()):
+                            if not err <= tau * (1 + cfl * dtv.max() / dtv.min()):
                                 out.append((site + "/dt-array-bdf2", "gear a=%g %s mesh %r cfl %g field %s: second step with a dt array is off the BDF2 system by %.3g" % (a, rname, mspec, cfl, fname, err)))
                 if not gear:
                     # second step on the same object with another dt: the linear system must be rebuilt for the new dt
@@ -168,8 +172,8 @@ def check_linear(a, rname, mspec, bc, res=None):
                     err = np.abs(f.data[0] - want2).max() / (sc + 1e-300) if sc > 0 else np.abs(f.data[0]).max()
                     if res is not None:
                         res.evals += 1
-                        res.worst("linear-second-step/tau", err / (LIN * (1 + cfl)))
-                    if not err <= LIN * (1 + cfl):
+                        res.worst("linear-second-step/tau", err / (tau * (1 + cfl)))
+                    if not err <= tau * (1 + cfl):
                         out.append((site + "/second-step-other-dt", "%s a=%g %s mesh %r %s cfl %g field %s: second step on the same object with dt x0.37 is off the theta system by %.3g" % (
                             iname, a, rname, mspec, bc, cfl, fname, err)))
                 else:
@@ -183,8 +187,8 @@ def check_linear(a, rname, mspec, bc, res=None):
                         err = np.abs(f.data[0] - wantk).max() / sck if sc > 0 else np.abs(f.data[0]).max()
                         if res is not None:
                             res.evals += 1
-                            res.worst("gear-bdf2/tau", err / (LIN * (1 + cfl)))
-                        if not err <= LIN * (1 + cfl):
+                            res.worst("gear-bdf2/tau", err / (tau * (1 + cfl)))
+                        if not err <= tau * (1 + cfl):
                             out.append((site + "/bdf2-step%d" % min(k, 3), "gear a=%g %s mesh %r %s cfl %g field %s: step %d is off the BDF2 recurrence by %.3g" % (
                                 a, rname, mspec, bc, cfl, fname, k, err)))
                             break
@@ -487,6 +491,16 @@ def shard_linear(arg):
     return res
 
 
+def shard_linear_sizes(arg):
+    """size ladder: the same judgement on larger systems (33, 64, 100 unknowns; thorough 160), three impulses and the generic vectors"""
+    a, rname, mspec, bc = arg
+    res = core.Res()
+    res.nontrivial += 1
+    for s, w in check_linear(a, rname, mspec, bc, res):
+        res.violation(s.replace("C06/linear/", "C06/linear/larger-system/"), w, {"kind": "lin", "a": a, "recon": rname, "mesh": mspec, "bc": bc, "larger": True})
+    return res
+
+
 def shard_order(_):
     res = core.Res()
     res.nontrivial += 1
@@ -519,6 +533,8 @@ def shard_jac(arg):
 def run(ctx):
     cfg = [(a, r, ctx.tier) for a in (1.0, -1.5) for r in ["extrapol1"] + space.X1_UNLIMITED]
     ctx.pmap("linear-theta-bdf2", shard_linear, cfg)
+    big = [("uni", 33, 1.0, 0.0), ("uni", 64, 2.0, -1.0), ("ref", 100, 1.0, 2.0, 1, 1)] + ([("ref", 160, 1.0, 3.0, 1, 3)] if ctx.thorough else [])
+    ctx.pmap("linear-theta-bdf2-size-ladder", shard_linear_sizes, [(a, r, m, bc) for a in (1.0, -1.5) for r in ("extrapol1", "extrapol3") for m in big for bc in ("per", "dirichlet")])
     ctx.pmap("temporal-order", shard_order, [0])
     jc = []
     for mname, spec, fluxes in (("burgers", ("burgers",), (None,)), ("euler1d", ("euler1d", 1.4), ("hllc", "hlle")), ("shallowwater", ("shallowwater", 9.81), ("hll", "rusanov"))):
@@ -535,7 +551,8 @@ def _tup(x):
 def replay(case):
     k = case["kind"]
     if k == "lin":
-        return check_linear(case["a"], case["recon"], _tup(case["mesh"]), case["bc"])
+        v = check_linear(case["a"], case["recon"], _tup(case["mesh"]), case["bc"])
+        return [(s_.replace("C06/linear/", "C06/linear/larger-system/") if case.get("larger") else s_, w) for s_, w in v]
     if k == "fourier":
         return check_fourier(case["a"], case["recon"], case["n"])
     if k == "order":
